@@ -333,6 +333,14 @@ fn grammar_sweep(ctx: &mut Ctx) {
             mutate_sentence(ctx, &a, &red);
         }
     }
+    // deep and wide sentences (acceptance only): chains to depth 40, towers, long lists
+    for a in crate::props::c01::deep_asts() {
+        idx += 1;
+        if ctx.mine(idx) {
+            check_sentence(ctx, &a, idx);
+            ctx.count("sentences_deep_family", 1);
+        }
+    }
     // syntactic alphabet, deeper
     let mut g = Gen::new(syntactic_alpha());
     let upto = if ctx.thorough() { 5 } else { 4 };
